@@ -26,6 +26,9 @@ def configs(tier):
     # stored byte for byte under a .ics name; every view must still serve the same bytes under the same ETag
     out.append(Config(front="wsgi", backend="tree", prefix="/", threshold=0, features={"views", "head"}, names={"cal": ["a.ics", "b.ics"], "ab": [], "c2": []},
                       bodies={"cal": ["X", "XRAW", "XRAW2"], "ab": [], "c2": []}, ct_for={"XRAW": "application/octet-stream", "XRAW2": "(none)"}, oracles={"C02"}, label="tree/wsgi+raw-uploads"))
+    # a collection nested in the calendar (with a member named like a top-level one) and Depth: infinity views
+    out.append(Config(front="wsgi", backend="tree", prefix="/dav/", threshold=0, features={"views", "nested"}, names={"cal": ["a.ics", "b.ics"], "ab": [], "c2": []},
+                      bodies={"cal": ["X", "X2"], "ab": [], "c2": []}, oracles={"C02"}, label="tree/wsgi@/dav/+nested+depth-infinity"))
     if tier == "thorough":
         out += [
             Config(front="aio", backend="tree", prefix="/a/b/", threshold=0, features=feats, bodies=bodies, props=props, oracles={"C02"}),
@@ -47,6 +50,8 @@ def run(tier, workers=None):
         return {"distinct_etags_observed": n}
 
     faults = {
+        # the fault phase runs on the core configurations (the special-purpose ones share the same write path)
+        "configs": [c for c in configs(tier) if "+" not in getattr(c, "label", "") or c.label.endswith("+cfgmeta")],
         "histories": [[("put", "cal", "a.ics", "X")], [("put", "cal", "a.ics", "X"), ("put", "cal", "a.ics", "X2")]],
         "ops": [("put", "cal", "a.ics", "X2"), ("put", "cal", "a.ics", "Z"), ("delete", "cal", "a.ics")],
     }
